@@ -17,8 +17,8 @@ class Profile(object):
   technique = "deterministic simulation: seeded histories"
   components = None
 
-  quick_runs = 160
-  thorough_runs = 3000
+  quick_runs = 600
+  thorough_runs = 12000
   quick_budget = 75        # soft wall budget (s): no new runs are started after this
   thorough_budget = 780
   run_time_limit = 120     # hard per-run limit (s); exceeding it is a harness error
@@ -46,6 +46,18 @@ class Profile(object):
                "DocStorage (SimStore doc-action interpreter)", "clock (counter)",
                "friendly_traceback (source cache only)"],
     }
+
+  def level_text(self):
+    return ("seeded search over simulated runs (%d quick / %d thorough, swarm-configured, <=%d events "
+            "each) of the real engine behind the real Sandbox framing; every violation is minimised "
+            "to a replay file that reproduces it in a fresh process. Evidence over the seeds, domain "
+            "and bounds stated in the evidence file, not a proof." % (
+              self.quick_runs, self.thorough_runs, self.max_events))
+
+  def level_note(self):
+    return ("trusted base: the harness (gsim), CPython, the Node/DocStorage stubs' reading of how "
+            "stored actions are applied; engine code is real and imported from the working tree. "
+            "Domain: " + self.domain_text())
 
   def assumptions(self):
     return ["Node side is a stub: DocStorage/SQLite typing and ActionHistory are modelled, not run",
